@@ -395,17 +395,34 @@ def nsDir (fs : FS) (ns : Bool) (bd : Path) (last : Name) : List Path :=
   if ns && !hasInit fs (bd ++ [last]) && (fs.isFile (bd ++ [last]) || fs.isDir (bd ++ [last])) && !fs.isFile (bd ++ [last])
   then [bd ++ [last]] else []
 
+/-- `verify_module` and `highest_init_level` begin with `if is_init_file(path): path = dirname(path)`: for the package
+    files that leads to `bd` like for every other candidate, but the *module* file of a module id ending in
+    `.__init__` (`<bd>/__init__.py[i]`) is taken for a package `__init__` as well, so the walk starts one directory
+    higher -/
+def startOf (bd : Path) (last : Name) (isMod : Bool) : Path :=
+  if isMod && last = sInit then bd.dropLast else bd
+
+/-- verify_module(id, path) for a candidate path of directory `bd`; `nlev` = id.count(".") -/
+def verifyAt (fs : FS) (bd : Path) (last : Name) (nlev : Nat) (isMod : Bool) : Bool :=
+  verifyFrom fs (startOf bd last isMod).reverse nlev
+
+/-- the candidate files of one directory in the order of the code, tagged "is a module file" -/
+def scanCands (bd : Path) (last : Name) : List (Path × Bool) :=
+  (pkgFiles bd last).map (·, false) ++ (modFiles bd last).map (·, true)
+
 /-- the body of `for base_dir, verify in candidate_base_dirs:` for one directory `bd` (verify = True there);
-    `nlev` = len(components) - 1.  The sequence of `isfile_case` tests is unrolled: when `verify_module` holds the
-    first existing file is returned, otherwise every existing file (and the namespace directory, in its place
-    between packages and modules) is recorded as a near miss. -/
+    `nlev` = len(components) - 1.  The sequence of `isfile_case` tests is unrolled: the first existing file that
+    passes `verify_module` is returned; when there is none, every existing file (and the namespace directory, in
+    its place between packages and modules) has been recorded as a near miss. -/
 def scanDir (fs : FS) (ns : Bool) (bd : Path) (last : Name) (nlev : Nat) : Scan :=
-  if verifyFrom fs bd.reverse nlev then
-    match (pkgFiles bd last ++ modFiles bd last).filter fs.isFile with
-    | p :: _ => .found p
-    | [] => .misses (nsDir fs ns bd last)
-  else
+  match (scanCands bd last).find? (fun c => fs.isFile c.1 && verifyAt fs bd last nlev c.2) with
+  | some c => .found c.1
+  | none =>
     .misses ((pkgFiles bd last).filter fs.isFile ++ nsDir fs ns bd last ++ (modFiles bd last).filter fs.isFile)
+
+/-- highest_init_level(id, path) of a near miss `p` of directory `bd` -/
+def levelOf (fs : FS) (bd : Path) (last : Name) (nlev : Nat) (p : Path) : Nat :=
+  initLevel fs (startOf bd last ((modFiles bd last).contains p)) nlev
 
 /-- `levels.index(max(levels))`: first element with the maximal level -/
 def pickBest : List (Path × Nat) → Option (Path × Nat)
@@ -421,7 +438,7 @@ def findLoop (fs : FS) (ns : Bool) (last : Name) (nlev : Nat) :
   | (bd, _) :: rest, near =>
     match scanDir fs ns bd last nlev with
     | .found p => some p
-    | .misses l => findLoop fs ns last nlev rest (near ++ l.map (fun p => (p, initLevel fs bd nlev)))
+    | .misses l => findLoop fs ns last nlev rest (near ++ l.map (fun p => (p, levelOf fs bd last nlev p)))
 
 /-- `_find_module(id)` over mypy_path + python_path; `comps = id.split(".")` (non-empty) -/
 def findModule (fs : FS) (ns : Bool) (roots : List Path) (comps : List Name) : Option Path :=
